@@ -723,3 +723,87 @@ Theorem write_all_spec : forall wfsz buf data frames buf',
   concat frames ++ buf' = buf ++ data /\
   Forall (fun f => Z.of_nat (length f) = wfsz) frames /\ Z.of_nat (length buf') <= wfsz.
 Proof. intros. eapply write_loop_spec; try eassumption. lia. Qed.
+
+(* ---------------- isolation inside one endpoint ---------------- *)
+Definition other (k : Z) (i : nat) (k' : Z) (i' : nat) : Prop := (k =? 0) <> (k' =? 0) \/ i <> i'.
+
+Lemma nth_error_upd_nth_other : forall A (f : A -> A) l n m, n <> m -> nth_error (upd_nth n f l) m = nth_error l m.
+Proof.
+  intros A f. induction l as [|x l IH]; intros n m H; [destruct n; reflexivity|].
+  destruct n as [|n]; destruct m as [|m]; cbn [upd_nth nth_error]; try reflexivity; try lia.
+  apply IH. lia.
+Qed.
+
+Lemma get_upd_other : forall e k i f k' i', other k i k' i' ->
+  get_stream (upd_stream e k i f) k' i' = get_stream e k' i'.
+Proof.
+  intros e k i f k' i' [H|H]; unfold get_stream, upd_stream, set_table, table;
+    destruct (k =? 0) eqn:E1; destruct (k' =? 0) eqn:E2; cbn [e_acc e_con set_acc set_con]; try reflexivity;
+    try (exfalso; apply H; reflexivity); apply nth_error_upd_nth_other; exact H.
+Qed.
+
+Lemma get_set_d : forall e x k i, get_stream (set_d e x) k i = get_stream e k i.
+Proof. intros. unfold get_stream, table. destruct (k =? 0); reflexivity. Qed.
+Lemma get_set_qs : forall e x k i, get_stream (set_qs e x) k i = get_stream e k i.
+Proof. intros. unfold get_stream, table. destruct (k =? 0); reflexivity. Qed.
+Lemma get_set_slots : forall e x k i, get_stream (set_slots e x) k i = get_stream e k i.
+Proof. intros. unfold get_stream, table. destruct (k =? 0); reflexivity. Qed.
+Lemma get_set_events : forall e x k i, get_stream (set_events e x) k i = get_stream e k i.
+Proof. intros. unfold get_stream, table. destruct (k =? 0); reflexivity. Qed.
+Lemma get_set_out : forall e x l k i, get_stream (set_out e x l) k i = get_stream e k i.
+Proof. intros. unfold get_stream, table. destruct (k =? 0); reflexivity. Qed.
+Lemma get_set_fail : forall e x k i, get_stream (set_fail e x) k i = get_stream e k i.
+Proof. intros. unfold get_stream, table. destruct (k =? 0); reflexivity. Qed.
+
+Lemma get_release : forall e f k i, get_stream (release e f) k i = get_stream e k i.
+Proof. intros. unfold release. apply get_set_d. Qed.
+Lemma get_fold_release : forall rel e k i, get_stream (fold_left release rel e) k i = get_stream e k i.
+Proof. induction rel as [|f rel IH]; intros e k i; cbn [fold_left]; [reflexivity|]. rewrite IH. apply get_release. Qed.
+Lemma get_add_event : forall e ev k i, get_stream (add_event e ev) k i = get_stream e k i.
+Proof. intros. unfold add_event. apply get_set_events. Qed.
+Lemma get_enqueue_idle : forall e k c j k' i', get_stream (enqueue_idle e k c j) k' i' = get_stream e k' i'.
+Proof. intros. unfold enqueue_idle, upd_queue. apply get_set_qs. Qed.
+Lemma get_upd_slot : forall e s f k i, get_stream (upd_slot e s f) k i = get_stream e k i.
+Proof. intros. unfold upd_slot. apply get_set_slots. Qed.
+Lemma get_emit : forall e h d k i, get_stream (emit e h d) k i = get_stream e k i.
+Proof.
+  intros. unfold emit. destruct (e_gone e); [apply get_set_fail|]. destruct d; apply get_set_out.
+Qed.
+
+Lemma get_complete_read : forall e k i p k' i', other k i k' i' ->
+  get_stream (complete_read e k i p) k' i' = get_stream e k' i'.
+Proof. intros. unfold complete_read. rewrite get_add_event. apply get_upd_other. assumption. Qed.
+
+Lemma get_handover : forall e k i slot k' i', other k i k' i' ->
+  get_stream (handover e k i slot) k' i' = get_stream e k' i'.
+Proof. intros. unfold handover. rewrite get_add_event, get_upd_slot. apply get_upd_other. assumption. Qed.
+
+(* a frame handed over by the dispatcher changes the state of the addressed stream only *)
+Theorem deliver_isolated : forall e k i f k' i', other k i k' i' ->
+  get_stream (deliver e k i f) k' i' = get_stream e k' i'.
+Proof. intros. unfold deliver. apply get_upd_other. assumption. Qed.
+
+(* whatever a reusable stream does (discarding, reading for its application, queueing, hand-over)
+   leaves the state of every other stream of the endpoint untouched *)
+Theorem stream_step_isolated : forall e k i e' k' i', stream_step e k i = Some e' -> other k i k' i' ->
+  get_stream e' k' i' = get_stream e k' i'.
+Proof.
+  intros e k i e' k' i' H Ho. unfold stream_step in H.
+  destruct (get_stream e k i) as [s|]; [|discriminate].
+  assert (Hread : forall p, read_iter e k i s p = Some e' -> get_stream e' k' i' = get_stream e k' i').
+  { intros p Hr. unfold read_iter in Hr. destruct (read_iter_s s p) as [|s1 rel done]; [discriminate|].
+    inversion Hr; subst e'. clear Hr.
+    destruct done; [destruct (s_pread s1)|]; try rewrite get_complete_read by assumption;
+      rewrite get_fold_release; apply get_upd_other; assumption. }
+  assert (Hmain : (match s_rph s, s_wph s with
+                   | RReady, WWaitOpen => Some (enqueue_idle (upd_stream e k i (fun s => set_wph s WQueue)) k (s_cap s) i)
+                   | RReady, WJoin slot => Some (handover e k i slot)
+                   | _, _ => None
+                   end) = Some e' -> get_stream e' k' i' = get_stream e k' i').
+  { intros Hm. destruct (s_rph s); try discriminate. destruct (s_wph s); try discriminate; inversion Hm; subst e'.
+    - rewrite get_enqueue_idle. apply get_upd_other. assumption.
+    - apply get_handover. assumption. }
+  destruct (s_rph s) eqn:Er; destruct (s_inq s) as [|f t] eqn:Eq; destruct (s_pread s) as [p|] eqn:Ep;
+    try (apply (Hread _ H)); try (apply Hmain; exact H); try discriminate;
+    try (inversion H; subst e'; rewrite get_release; apply get_upd_other; assumption).
+Qed.
